@@ -158,14 +158,18 @@ def run(ctx):
         cb = [x for x in closure_bodies(fx, c) if x.calls_to(r"PossibleValue::matches$")][0]
         mc = cb.calls_to(r"PossibleValue::matches$")[0]
         pm_ = cb.locals[2][1] if len(cb.locals) > 2 and cb.locals[2][1] else "arg2"
-        okm = expr(cb, 0) in ("matches(%s,arg1.0,arg1.1)" % pm_, "matches(arg2,arg1.0,arg1.1)") and c.callee_q.endswith("::any")
+        form = c.callee_q.rsplit("::", 1)[1]
+        # `any(p)` and `find(p).is_some()` / `position(p).is_some()` are the same test
+        as_bool = form == "any" or (form in ("find", "position") and any(expr(pvp, x.args[0]).startswith(form + "(iter(self.0)") for x in pvp.calls_to(r"Option::is_some$")))
+        okm = expr(cb, 0) in ("matches(%s,arg1.0,arg1.1)" % pm_, "matches(arg2,arg1.0,arg1.1)") and as_bool
         res.check(src == "iter(self.0)" and okm, "R4.4", "pvp-membership", c.where(), "accepted iff any declared value matches(value, ignore_case)",
                   "PossibleValuesParser accepts by `%s` over %s with test %s: the admitted language is no longer exactly the declared names and aliases" % (c.callee_q.rsplit("::", 1)[1], src[:80], expr(cb, 0)[:60]))
         ic = expr(pvp, c.args[1])
         res.check(re.search(r"unwrap_or\(map\(arg,closure\(\)\),0\)\)$", ic) is not None and any(x.calls_to(r"Arg::is_ignore_case_set$") for cc in pvp.calls_to(r"Option::map$") for x in closure_bodies(fx, cc)),
                   "R4.4", "pvp-ignore-case-source", c.where(), "ignore_case = arg.is_ignore_case_set() (false without an arg)", "case folding is requested by %s" % ic[-80:])
         oks_ = [i for i, j, s_ in pvp.stmts() if s_["k"] == "assign" and s_["place"] == 0 and s_["rv"]["k"] == "agg" and s_["rv"].get("variant") == "Ok"]
-        res.check(bool(oks_) and all(has_bool(pvp, i, "T", r"^any\(iter\(self\.0\)") for i in oks_) and all(has_bool(pvp, e.bb, "F", r"^any\(iter\(self\.0\)") for e in pvp.calls_to(r"error::Error::invalid_value$")),
+        MEMB = r"^(any\(iter\(self\.0\)|is_some\((find|position)\(iter\(self\.0\))"
+        res.check(bool(oks_) and all(has_bool(pvp, i, "T", MEMB) for i in oks_) and all(has_bool(pvp, e.bb, "F", MEMB) for e in pvp.calls_to(r"error::Error::invalid_value$")),
                   "R4.4", "pvp-polarity", pvp.where(), "Ok on a match, invalid_value otherwise", "PossibleValuesParser returns Ok / invalid_value on the wrong edge of the membership test")
     evp = fx.body("<%sEnumValueParser as %sTypedValueParser>::parse_ref" % (VP, VP))
     fnd = [c for c in evp.calls_to(r"Iterator>?::(find|any|position|find_map)$") if any(cb.calls_to(r"PossibleValue::matches$") for cb in closure_bodies(fx, c))]
